@@ -4,13 +4,17 @@ pub mod c01;
 pub mod c02;
 pub mod c02_producers;
 pub mod c10;
+pub mod c11;
 pub mod c20;
 
 pub fn all() -> Vec<PropDef> {
-    vec![c01::def(), c02::def(), c10::def(), c20::def()]
+    vec![c01::def(), c02::def(), c10::def(), c11::def(), c20::def()]
 }
 
 /// entry point of `tvv child …` (used by the checks that need process isolation)
-pub fn child_main(_args: &[String]) -> i32 {
-    2
+pub fn child_main(args: &[String]) -> i32 {
+    match args.first().map(|s| s.as_str()) {
+        Some("c11") => c11::child_main(&args[1..]),
+        _ => 2,
+    }
 }
